@@ -933,6 +933,8 @@ func (d *driver) scenario(steps []Step) error {
 			switch b {
 			case "any":
 				addr = fmt.Sprintf(":%d", e.port)
+			case "any4":
+				addr = fmt.Sprintf("0.0.0.0:%d", e.port)
 			case "grp":
 				addr = fmt.Sprintf("%s:%d", e.groups[cfg.Groups[0]], e.port)
 			case "if":
@@ -1295,7 +1297,14 @@ func Run(a tr.Args) error {
 		h := fnv.New64a()
 		_, _ = h.Write(raw)
 		d.rng = rand.New(rand.NewSource(a.Seed ^ int64(h.Sum64()>>1)))
-		return d.scenario(steps)
+		// a port picked for the scenario can be taken by another process between the probe and the bind:
+		// start the scenario again (its Begin event resets the monitor)
+		err := d.scenario(steps)
+		for try := 0; try < 3 && err != nil && strings.Contains(err.Error(), "address already in use"); try++ {
+			d.rng = rand.New(rand.NewSource(a.Seed ^ int64(h.Sum64()>>1)))
+			err = d.scenario(steps)
+		}
+		return err
 	})
 	if err != nil {
 		_ = w.Close() // keep what was recorded, for diagnosis
